@@ -25,6 +25,7 @@ def tiltJ (e : TiltEl Float) : Json :=
   match e with
   | .angular x y => Json.arr #[floatToJson x, floatToJson y]
   | .dispersive1 a b c d => Json.arr #[floatToJson a, floatToJson b, floatToJson c, floatToJson d]
+  | .dispersiveN trace x => Json.arr ((trace.map floatToJson).toArray.push (floatToJson x))
 
 /-- `np.fix`: truncation toward zero, with the remainder -/
 def fixSplit (x : Float) : Int × Float :=
